@@ -99,7 +99,7 @@ func c04ColVal(rng *rand.Rand, ty int) string {
 	}
 	switch ty {
 	case 1:
-		return c04ValTok([]int{0, 1, -1, 10, 12, 2, 123}[rng.Intn(7)], true)
+		return c04ValTok([]int{0, 1, -1, 10, 12, 2, 123, 9007199254740992, 9007199254740993, 1838465273847561217, 1838465273847561218}[rng.Intn(11)], true) // incl. neighbours that collide as float64
 	case 2:
 		return c04ValTok(c04Floats[rng.Intn(len(c04Floats))], true)
 	case 3:
